@@ -89,6 +89,13 @@ CHECKS["C09"] = dict(
    note="Trusted: ref/typegraph. Not asserted: graphs whose uninhabited types are not required by the root; which of several problems of one graph is reported first. Known finding: multi-hop required recursion is accepted (pinned by the repository's own TestSchema_Example).",
    design="4/C09")
 
+CHECKS["C03"] = dict(
+   category="exploration", engine="B small-scope enumeration of type environments x root constructs x documents",
+   technique="exhaustive enumeration of four construct families (type references/or, allOf, additionalProperties, key shortcuts) x all small documents against a three-valued set-semantics reference, plus union differential",
+   text="All ordered pairs of user types from a 10-body pool plus a derived alias/or type x 12 root constructs x nullable x 6 positions x all documents <= 3 nodes (all arrays <= 3 elements for array positions); 9 allOf configurations x 4 additionalProperties settings x both configs x all 1024 objects over 5 keys; 13 additionalProperties settings x shapes x 150 objects; 5 key types x optionality x layouts x all objects with <= 3 members over 6 keys. The library verdict must equal the reference union/conjunction semantics and verdict(@A|@B) must equal verdict(@A) or verdict(@B).",
+   note="Trusted: ref/refv. Unspecified (counted in the evidence): cardinality/precedence of shortcut matches, presence of non-optional shortcut entries, rule-less key types, integer under additionalProperties float.",
+   design="4/C03")
+
 NOT_YET = {
 }
 
